@@ -16,6 +16,7 @@ from __future__ import annotations
 import json
 import os
 import random
+import re
 import shutil
 import time
 
@@ -47,6 +48,7 @@ SIG_BYNAME_UNCACHED = "C14/byName-uncached-table-is-positional"
 SIG_BYNAME_STALE = "C14/byName-stale-schema-cache"
 SIG_STALE = "C14/table-read-stale-schema-cache"
 SIG_PARTIAL = "C14/failed-copy-to-new-path-leaves-partial-file"
+SIG_TEMPVIEWS = "C14/listTables-of-schema-shows-internal-temp-views"
 
 
 # ---- frames -----------------------------------------------------------------------------------------------
@@ -95,6 +97,10 @@ def op_coq(o) -> str:
     k = o[0]
     if k == "save":
         return f"(OpSave {strlit(o[1])} {mode_coq(o[2])} {mode_coq(o[3])} {df_coq(o[4])})"
+    if k == "gsave":
+        # `if not catalog.tableExists(n): df.write.saveAsTable(n)`: in model and spec this is, by definition, what
+        # saveAsTable(mode="ignore") does (no-op OK when the table exists, CREATE otherwise)
+        return f"(OpSave {strlit(o[1])} {mode_coq('ignore')} None {df_coq(o[2])})"
     if k == "insert":
         return f"(OpInsert {strlit(o[1])} {boollit(o[2])} {df_coq(o[3])})"
     if k == "wpath":
@@ -127,6 +133,8 @@ def op_str(o) -> str:
         return "df.write" + ("" if selfm is None else f".mode({selfm!r})")
     if k == "save":
         return f"{w(o[3])}.saveAsTable({o[1]!r}{'' if o[2] is None else ', mode=' + repr(o[2])})  df={fr(o[4])}"
+    if k == "gsave":
+        return f"if not catalog.tableExists({o[1]!r}): df.write.saveAsTable({o[1]!r})  df={fr(o[2])}"
     if k == "insert":
         return f"df.write{'.byName' if o[2] else ''}.insertInto({o[1]!r})  df={fr(o[3])}"
     if k == "wpath":
@@ -138,8 +146,18 @@ def op_str(o) -> str:
     if k == "drop":
         return f"conn.execute('DROP TABLE {o[1]}')"
     if k == "list":
-        return "catalog.listTables()"
-    return f"catalog.{ {'exists': 'tableExists', 'cols': 'listColumns', 'get': 'getTable'}[k]}({o[1]!r})"
+        return "catalog.listTables(" + ", ".join(repr(a) for a in LIST_ARGS[o[1] if len(o) > 1 else "plain"]) + ")"
+    args = cat_args(o[1], o[2] if len(o) > 2 else "plain")
+    return f"catalog.{ {'exists': 'tableExists', 'cols': 'listColumns', 'get': 'getTable'}[k]}({', '.join(map(repr, args))})"
+
+
+LIST_ARGS = {"plain": (), "db": ("main",), "full": ("memory.main",)}
+
+
+def cat_args(n, variant):
+    """spellings under which the catalog API must find the same table (DuckDB: catalog memory, schema main)"""
+    return {"plain": (n,), "upper": (n.upper(),), "db": ("main." + n,), "dbarg": (n, "main"),
+            "full": ("memory.main." + n,), "fullarg": (n, "memory.main"), "dbupper": ("MAIN." + n.upper(),)}[variant]
 
 
 def obs_coq(ob) -> str:
@@ -162,7 +180,10 @@ def obs_coq(ob) -> str:
 def snap_coq(sn) -> str:
     tabs = listlit([f"({strlit(n)}, {tbl_coq(c, r)})" for n, (c, r) in sorted(sn["tabs"].items())])
     fs = listlit([f"({strlit(p)}, {boollit(e)})" for p, e in sorted(sn["files"].items())])
-    return f"(mkSnap {tabs} {fs})"
+    cat = listlit([f"({strlit(n)}, ({boollit(ex)}, " + listlit([f"({strlit(c)}, {TY_COQ[t]})" for c, t in cols])
+                   + f", {boollit(got)}))" for n, (ex, cols, got) in sorted(sn.get("cat", {}).items())])
+    listed = listlit([strlit(n) for n in sn.get("listed", [n for n in sn["tabs"]])])
+    return f"(mkSnap {tabs} {fs} {cat} {listed})"
 
 
 def case_coq(ops, obs, snaps) -> str:
@@ -210,7 +231,10 @@ class Impl:
         self.scratch = scratch
         os.makedirs(scratch, exist_ok=True)
         self.paths: dict[str, str] = {}
+        self.names: list[str] = []
         self.exc: list = []
+        self.notes: list = []
+        self.nstep = 0
 
     def close(self):
         try:
@@ -243,11 +267,14 @@ class Impl:
     def step(self, o):
         k = o[0]
         try:
-            if k in ("save", "insert", "wpath"):
+            if k in ("save", "insert", "wpath", "gsave"):
                 fr = o[-1]
                 w = self.df(fr).write
                 try:
-                    if k == "save":
+                    if k == "gsave":
+                        if not self.s.catalog.tableExists(o[1]):
+                            w.saveAsTable(o[1])
+                    elif k == "save":
                         if o[3] is not None:
                             w = w.mode(o[3])
                         w.saveAsTable(o[1]) if o[2] is None else w.saveAsTable(o[1], mode=o[2])
@@ -282,15 +309,23 @@ class Impl:
                     self.exc.append(f"{type(ex).__name__}: {str(ex)[:160]}")
                     return ["err", "EMissing"]
             cat = self.s.catalog
+            var = (o[2] if len(o) > 2 else "plain") if k != "list" else (o[1] if len(o) > 1 else "plain")
             if k == "exists":
-                return ["bool", bool(cat.tableExists(o[1]))]
+                return ["bool", bool(cat.tableExists(*cat_args(o[1], var)))]
             if k == "list":
-                return ["names", [t.name for t in cat.listTables()]]
+                names = [t.name for t in cat.listTables(*LIST_ARGS[var])]
+                # df.schema / printSchema create TEMPORARY VIEWs r<uuid4> (catalog temp) and never drop them; the Coq model has
+                # no notion of them: they are split off here and reported by the harness itself (SIG_TEMPVIEWS)
+                internal = [n for n in names if re.fullmatch(r"r[0-9a-f]{32}", n)]
+                if internal:
+                    self.notes.append({"step": self.nstep, "call": op_str(o), "internal_views_listed": len(internal),
+                                       "example": internal[0]})
+                return ["names", [n for n in names if n not in internal]]
             if k == "cols":
-                return ["cols", [[c.name, ty_of_engine(c.dataType)] for c in cat.listColumns(o[1])]]
+                return ["cols", [[c.name, ty_of_engine(c.dataType)] for c in cat.listColumns(*cat_args(o[1], var))]]
             if k == "get":
                 try:
-                    t = cat.getTable(o[1])
+                    t = cat.getTable(*cat_args(o[1], var))
                     return ["ok"] if t.name == o[1] else ["err", "EFailed"]
                 except ValueError:
                     return ["err", "EMissing"]
@@ -309,7 +344,39 @@ class Impl:
             cols = [[r[0], ty_of_engine(r[1])] for r in self.conn.execute(f'describe "{n}"').fetchall()]
             rows = [list(r) for r in self.conn.execute(f'select * from "{n}"').fetchall()]
             tabs[n] = (cols, rows)
-        return {"tabs": tabs, "files": {k: os.path.exists(p) for k, p in self.paths.items()}}
+        snap = {"tabs": tabs, "files": {k: os.path.exists(p) for k, p in self.paths.items()}}
+        # ... and what the catalog API answers at this moment, for every table name of the history (plain spelling)
+        cat = self.s.catalog
+        answers = {}
+        for n in self.names:
+            try:
+                ex = bool(cat.tableExists(n))
+            except Exception as e:  # noqa: BLE001
+                self.exc.append(f"tableExists({n!r}): {type(e).__name__}: {str(e)[:120]}")
+                ex = None
+            try:
+                cols = [[c.name, ty_of_engine(c.dataType)] for c in cat.listColumns(n)]
+            except Exception as e:  # noqa: BLE001
+                self.exc.append(f"listColumns({n!r}): {type(e).__name__}: {str(e)[:120]}")
+                cols = [["?error", "other"]]
+            try:
+                got = cat.getTable(n).name == n
+            except ValueError:
+                got = False
+            except Exception as e:  # noqa: BLE001
+                self.exc.append(f"getTable({n!r}): {type(e).__name__}: {str(e)[:120]}")
+                got = None
+            if ex is None or got is None:
+                cols = [["?error", "other"]]      # an unexpected exception never matches the model
+            answers[n] = (bool(ex), cols, bool(got))
+        try:
+            listed = [t.name for t in cat.listTables()]
+        except Exception as e:  # noqa: BLE001
+            self.exc.append(f"listTables(): {type(e).__name__}: {str(e)[:120]}")
+            listed = ["?error"]
+        snap["cat"] = answers
+        snap["listed"] = listed
+        return snap
 
 
 def run_history(ops, scratch):
@@ -318,11 +385,14 @@ def run_history(ops, scratch):
         for o in ops:                      # register every path of the history first: snapshots report all of them
             if o[0] in ("wpath", "rpath"):
                 im.path(o[1], o[2])
+            elif o[0] != "list" and o[1] not in im.names:
+                im.names.append(o[1])
         obs, snaps = [], []
-        for o in ops:
+        for i, o in enumerate(ops):
+            im.nstep = i
             obs.append(im.step(o))
             snaps.append(im.snapshot())
-        return obs, snaps, im.exc
+        return obs, snaps, im.exc, im.notes
     finally:
         im.close()
 
@@ -405,6 +475,8 @@ def corpus():
         [["wpath", "p", "csv", None, None, bad_of(FR_AB)], ["wpath", "p", "csv", None, None, FR_AB], ["rpath", "p", "csv"]],
         [["save", "t", None, None, FR_AS], ["rtable", "t"], ["drop", "t"], ["rtable", "t"], ["save", "t", None, None, FR_AS2],
          ["rtable", "t"], ["list"]],
+        [["save", "t", None, None, FR_AS], ["rtable", "t"], ["drop", "t"], ["exists", "t"], ["exists", "t", "upper"], ["list"],
+         ["get", "t"], ["gsave", "t", FR_AS2], ["rtable", "t"]],
     ]
 
 
@@ -475,6 +547,39 @@ def fault_histories(rnd, tier):
     return out
 
 
+EXISTS_VARIANTS = ["plain", "upper", "db", "dbarg", "full", "fullarg", "dbupper"]
+
+
+def catalog_queries(n):
+    """every catalog question about table n, in several spellings / letter cases / qualified forms"""
+    return ([["exists", n, v] for v in EXISTS_VARIANTS]
+            + [["list"], ["list", "db"], ["list", "full"]]
+            + [["cols", n, v] for v in ("plain", "upper", "db", "dbarg", "full")]
+            + [["get", n, v] for v in ("plain", "upper", "db", "full")])
+
+
+def catalog_histories(tier):
+    """bounded-exhaustive life cycles of a table: created (each creating mode), read through the session or not,
+    asked about, DROPPED, asked again (every catalog query, every spelling), re-created behind the usual guard
+    `if not tableExists`, asked again, read; a second table stays untouched throughout"""
+    out = []
+    for read_first in (True, False):
+        for create in ([None, "overwrite", "ignore"] if tier == "quick" else MODES[:5]):
+            for recreate in ("guard", "ignore", "error"):
+                h = [["save", "u", None, None, FR_AB], ["save", "t", create, None, FR_AS]]
+                if read_first:
+                    h += [["rtable", "t"], ["rtable", "u"]]
+                h += catalog_queries("t")[:3] + [["drop", "t"]] + catalog_queries("t")
+                if recreate == "guard":
+                    h += [["gsave", "t", FR_C]]
+                else:
+                    h += [["save", "t", recreate, None, FR_C]]
+                h += [["exists", "t"], ["exists", "t", "upper"], ["list"], ["cols", "t"], ["get", "t"], ["rtable", "t"],
+                      ["drop", "t"], ["drop", "t"], ["exists", "t"], ["exists", "u", "upper"], ["gsave", "u", FR_C], ["rtable", "u"]]
+                out.append(h)
+    return out
+
+
 def random_history(rnd, max_writes=5):
     tables = ["t", "u"]
     paths = {"p": rnd.choice(FMTS), "q": rnd.choice(FMTS)}
@@ -533,11 +638,19 @@ def random_history(rnd, max_writes=5):
             ops.append(["rpath", key, paths[key]])
         elif x < 0.93:
             n = rnd.choice(tables)
+            if n in cur and rnd.random() < 0.6:
+                ops.append(["rtable", n])                      # dropped after the session has read it
             ops.append(["drop", n])
             cur.pop(n, None)
+            ops += rnd.sample(catalog_queries(n), 3)
+            if rnd.random() < 0.5:
+                fr = gen_frame(rnd)
+                ops.append(["gsave", n, fr])
+                cur[n] = list(fr["cols"])
+                writes += 1
         else:
             n = rnd.choice(tables + ["nope"])
-            ops.append(rnd.choice([["exists", n], ["list"], ["cols", n], ["get", n]]))
+            ops.append(rnd.choice(catalog_queries(n)))
     # observe everything at the end
     for n in tables:
         ops.append(["rtable", n])
@@ -587,6 +700,20 @@ def signature(ops, obs, snaps, i) -> str:
     if k == "rtable" and o[1] in cache and o[1] in before["tabs"]:
         if cache[o[1]] != [c[0] for c in before["tabs"][o[1]][0]]:
             return SIG_STALE
+    # the catalog API asked right after the step contradicts what the connection itself holds
+    wrong = []
+    for n, (ex, cols, got) in sorted(after.get("cat", {}).items()):
+        real = after["tabs"].get(n)
+        if ex != (real is not None):
+            wrong.append("tableExists")
+        if got != (real is not None):
+            wrong.append("getTable")
+        if [list(c) for c in cols] != ([list(c) for c in real[0]] if real else []):
+            wrong.append("listColumns")
+    if sorted(after.get("listed", sorted(after["tabs"]))) != sorted(after["tabs"]):
+        wrong.append("listTables")
+    if wrong:
+        return f"C14/catalog-contradicts-engine:{'+'.join(sorted(set(wrong)))}-after-{k}"
     return f"C14/{k}:{obs[i][0]}{'-' + obs[i][1] if obs[i][0] == 'err' else ''}-differs-from-spec"
 
 
@@ -653,9 +780,10 @@ def big_fault_probes(scratch):
 def make_histories(ctx):
     rnd = random.Random(ctx.seed)
     hs = [("corpus", h) for h in corpus()]
+    hs += [("catalog", h) for h in catalog_histories(ctx.tier)]
     hs += [("pairs", h) for h in mode_pair_histories(ctx.tier)]
     hs += [("fault", h) for h in fault_histories(rnd, ctx.tier)]
-    n_rand = 120 if ctx.tier == "quick" else 2500
+    n_rand = 90 if ctx.tier == "quick" else 2500
     hs += [("random", random_history(rnd)) for _ in range(n_rand)]
     return hs
 
@@ -794,10 +922,10 @@ def run(ctx: core.Ctx):
                 done.update(f.result())
             big = fbig.result()
         for idx, src, ops in todo:
-            obs, snaps, exc = done[idx]
-            runs.append({"src": src, "ops": ops, "obs": obs, "snaps": snaps, "exc": exc})
+            obs, snaps, exc, notes = done[idx]
+            runs.append({"src": src, "ops": ops, "obs": obs, "snaps": snaps, "exc": exc, "notes": notes})
             kinds_hist(ops, hist_kind)
-            nw = sum(1 for o in ops if o[0] in ("save", "insert", "wpath"))
+            nw = sum(1 for o in ops if o[0] in ("save", "insert", "wpath", "gsave"))
             hist_len[nw] = hist_len.get(nw, 0) + 1
             hist_src[src] = hist_src.get(src, 0) + 1
             for o in ops:
@@ -853,12 +981,21 @@ def run(ctx: core.Ctx):
             if ops[i][0] in ("rtable", "rpath") and obs[i][0] == "rows" and obs[i][2]:
                 nontriv = True
         n_dom_hist += all_dom
-        if nontriv and sum(1 for o in ops if o[0] in ("save", "insert", "wpath")) >= 2:
+        if nontriv and sum(1 for o in ops if o[0] in ("save", "insert", "wpath", "gsave")) >= 2:
             n_nontriv += 1
         if len(ctx.samples) < 4 and r["src"] == "random" and len(ops) >= 8:
             ctx.sample({"history": [op_str(o) for o in ops], "observed": [x if x[0] != "rows" else ["rows", x[1], len(x[2])] for x in obs],
                         "verdict_per_step(impl=model obs,state | impl=spec obs,state | in_domain | model=spec | judged | exact)":
                             [v[8 * i:8 * i + 8] for i in range(len(ops))]})
+    noted = [r for r in runs if r["notes"]]
+    if noted:
+        r = min(noted, key=lambda r: r["notes"][0]["step"])
+        k = r["notes"][0]["step"]
+        ctx.deviation(SIG_TEMPVIEWS, f"{r['notes'][0]['call']} lists internal views ({len(noted)} histories of this run)",
+                      {"history": [op_str(o) for o in r["ops"][:k + 1]], "ops_json": r["ops"][:k + 1], "noted": r["notes"][0],
+                       "demanded": "listTables reflects exactly the tables created and dropped so far: the names of the "
+                                   "TEMPORARY VIEWs that df.schema created must not appear"})
+        dev_count[SIG_TEMPVIEWS] = len(noted)
     for sig, cand in sorted(dev_best.items()):
         term = listlit([op_coq(o) for o in cand["ops"]])
         spec_says = ctx.coq_eval(HEADER, f"snd (s_run s_init {term})")
@@ -942,7 +1079,9 @@ def replay(ctx: core.Ctx, rp: dict) -> int:
     ops = r["ops_json"]
     import logging
     logging.getLogger("sqlframe").setLevel(logging.ERROR)
-    obs, snaps, exc = run_history(ops, scratch)
+    obs, snaps, exc, notes = run_history(ops, scratch)
+    if notes:
+        print("internal temporary views shown by listTables:", notes)
     for o, ob in zip(ops, obs):
         print(f"{op_str(o)}\n    -> {ob}")
     print("tables/paths after the last step:", snaps[-1])
